@@ -205,6 +205,15 @@ class _Expr(ast.NodeTransformer):
             node.keywords = []
         if d in ("list", "tuple") and len(node.args) == 1 and isinstance(node.args[0], (ast.ListComp,)) and not node.keywords:
             return node.args[0] if d == "list" else node
+        # f(*[a, b]) with a literal display == f(a, b)
+        if any(isinstance(a, ast.Starred) and isinstance(a.value, (ast.List, ast.Tuple)) and not any(isinstance(e, ast.Starred) for e in a.value.elts) for a in node.args):
+            flat = []
+            for a in node.args:
+                if isinstance(a, ast.Starred) and isinstance(a.value, (ast.List, ast.Tuple)) and not any(isinstance(e, ast.Starred) for e in a.value.elts):
+                    flat.extend(a.value.elts)
+                else:
+                    flat.append(a)
+            node.args = flat
         # set algebra by method or by operator: a.union(b) == a | b, a.intersection(b) == a & b (one argument)
         if isinstance(node.func, ast.Attribute) and node.func.attr in ("union", "intersection") and len(node.args) == 1 and not node.keywords \
                 and not isinstance(node.args[0], ast.Starred):
@@ -417,6 +426,11 @@ def _else_form(stmts):
             s.orelse = _else_form(stmts[i + 1:])
             out.append(s)
             return out
+        if isinstance(s, ast.If) and s.orelse and _terminates(s.body) and not _terminates(s.orelse) and i + 1 < len(stmts):
+            # if c: <exits> else: B ; rest   ->  if c: <exits> else: B; rest
+            s.orelse = _else_form(list(s.orelse) + stmts[i + 1:])
+            out.append(s)
+            return out
         if isinstance(s, ast.If) and s.orelse and _terminates(s.orelse) and not _terminates(s.body) and i + 1 < len(stmts):
             # if c: A else: <exits> ; rest   ->  if c: A; rest else: <exits>
             s.body = _else_form(list(s.body) + stmts[i + 1:])
@@ -543,6 +557,28 @@ def _loop_to_comp(stmts):
                     continue
         out.append(s)
         i += 1
+    return out
+
+
+def _and_return_to_if(stmts):
+    """return C and REST  (C a bool-valued test: isinstance(...), a comparison, not ...)   ->   if C: return REST / else: return False"""
+    out = []
+    for s in stmts:
+        _recurse(s, _and_return_to_if)
+        if isinstance(s, ast.Return) and isinstance(s.value, ast.BoolOp) and isinstance(s.value.op, ast.And) and len(s.value.values) >= 2:
+            c = s.value.values[0]
+            boolish = (isinstance(c, ast.Call) and dotted(c.func) in ("isinstance", "issubclass", "hasattr", "callable")) or \
+                (isinstance(c, ast.Compare) and all(isinstance(o, (ast.Is, ast.IsNot, ast.In, ast.NotIn)) for o in c.ops)) or \
+                (isinstance(c, ast.UnaryOp) and isinstance(c.op, ast.Not))
+            if boolish:
+                rest = s.value.values[1:]
+                restv = rest[0] if len(rest) == 1 else ast.BoolOp(op=ast.And(), values=rest)
+                new = ast.If(test=c, body=[ast.Return(value=restv)], orelse=[ast.Return(value=ast.Constant(value=False))])
+                ast.copy_location(new, s)
+                ast.fix_missing_locations(new)
+                out.append(new)
+                continue
+        out.append(s)
     return out
 
 
@@ -1891,6 +1927,7 @@ def _canon_once(fnode):
     f.body = _ifexp_to_stmt(f.body)
     f.body = _loop_to_comp(f.body)
     f.body = _update_loop_to_dictcomp(f.body)
+    f.body = _and_return_to_if(f.body)
     for _ in range(3):
         f.body = _else_form(f.body)
         f.body = _tail_dup(f.body)
